@@ -1,2 +1,220 @@
+// ops: geometry (lat/lng, boundaries, areas, lengths, polygons, multipolygons).
+// Doubles cross the protocol as 16-hex-digit IEEE bit patterns.
+#include <stdio.h>
+#include <stdlib.h>
+#include <string.h>
+#include <math.h>
+#include "h3api.h"
+#include "h3Index.h"
+#include "iterators.h"
+#include "latLng.h"
+#include "faceijk.h"
+#include "polygon.h"
+#include "polyfill.h"
+#include "bbox.h"
+#include "vec2d.h"
+#include "coordijk.h"
+#include "linkedGeo.h"
 #include "drv_util.h"
-int ops_geo(int n, char **a) { (void)n; (void)a; return 0; }
+#include "valloc.h"
+
+static void outLL(const LatLng *g) { outD(g->lat); printf(" "); outD(g->lng); }
+static void outCB(const CellBoundary *cb) {
+    printf("%d", cb->numVerts);
+    for (int i = 0; i < cb->numVerts; i++) { printf(" "); outLL(&cb->verts[i]); }
+}
+
+// parse polygon: nloops, then for each loop: nverts, lat lng pairs (bit patterns). loop 0 = outer.
+static int parsePolygon(int n, char **a, int at, GeoPolygon *p) {
+    if (at >= n) return -1;
+    int nl = (int)pI(a[at++]);
+    if (nl < 1) return -1;
+    GeoLoop *loops = xbuf((size_t)nl, sizeof(GeoLoop));
+    for (int l = 0; l < nl; l++) {
+        if (at >= n) return -1;
+        int nv = (int)pI(a[at++]);
+        if (at + 2 * nv > n) return -1;
+        loops[l].numVerts = nv;
+        loops[l].verts = xbuf((size_t)nv, sizeof(LatLng));   // exact size
+        for (int v = 0; v < nv; v++) { loops[l].verts[v].lat = pD(a[at++]); loops[l].verts[v].lng = pD(a[at++]); }
+    }
+    p->geoloop = loops[0];
+    p->numHoles = nl - 1;
+    p->holes = nl > 1 ? xbuf((size_t)(nl - 1), sizeof(GeoLoop)) : NULL;
+    for (int l = 1; l < nl; l++) p->holes[l - 1] = loops[l];
+    free(loops);
+    return at;
+}
+static void freePolygon(GeoPolygon *p) {
+    free(p->geoloop.verts);
+    for (int i = 0; i < p->numHoles; i++) free(p->holes[i].verts);
+    free(p->holes);
+}
+
+int ops_geo(int n, char **a) {
+    const char *op = a[0];
+    if (isop(op, "ll2c") && n == 4) {
+        LatLng g = {pD(a[1]), pD(a[2])}; H3Index out = 0x5a5a5a5a5a5a5a5aULL;
+        H3Error e = H3_EXPORT(latLngToCell)(&g, (int)pI(a[3]), &out);
+        if (e) { if (out != 0x5a5a5a5a5a5a5a5aULL) printf("err %d wrote-result\n", (int)e); else outErr(e); }
+        else printf("ok %" PRIx64 "\n", out);
+        return 1;
+    }
+    if (isop(op, "c2ll") && n == 2) {
+        LatLng g; H3Error e = H3_EXPORT(cellToLatLng)(pH(a[1]), &g);
+        if (e) outErr(e); else { printf("ok "); outLL(&g); printf("\n"); }
+        return 1;
+    }
+    if (isop(op, "rt") && n == 2) {   // latLngToCell(cellToLatLng(h), res(h))
+        H3Index h = pH(a[1]); LatLng g; H3Error e = H3_EXPORT(cellToLatLng)(h, &g);
+        if (e) { outErr(e); return 1; }
+        H3Index out = 0; e = H3_EXPORT(latLngToCell)(&g, H3_GET_RESOLUTION(h), &out);
+        if (e) outErr(e); else printf("ok %" PRIx64 "\n", out);
+        return 1;
+    }
+    if (isop(op, "boundary") && n == 2) {
+        CellBoundary *cb = xbuf(1, sizeof(CellBoundary));
+        H3Error e = H3_EXPORT(cellToBoundary)(pH(a[1]), cb);
+        if (e) outErr(e); else { printf("ok "); outCB(cb); printf("\n"); }
+        free(cb);
+        return 1;
+    }
+    if (isop(op, "area") && n == 2) {
+        double r = 0, k = 0, m = 0; H3Index h = pH(a[1]);
+        H3Error e = H3_EXPORT(cellAreaRads2)(h, &r);
+        if (e) { outErr(e); return 1; }
+        H3Error e2 = H3_EXPORT(cellAreaKm2)(h, &k), e3 = H3_EXPORT(cellAreaM2)(h, &m);
+        if (e2 || e3) { printf("err %d\n", (int)(e2 ? e2 : e3)); return 1; }
+        printf("ok "); outD(r); printf(" "); outD(k); printf(" "); outD(m); printf("\n");
+        return 1;
+    }
+    if (isop(op, "edgeboundary") && n == 2) {
+        CellBoundary *cb = xbuf(1, sizeof(CellBoundary));
+        H3Error e = H3_EXPORT(directedEdgeToBoundary)(pH(a[1]), cb);
+        if (e) outErr(e); else { printf("ok "); outCB(cb); printf("\n"); }
+        free(cb);
+        return 1;
+    }
+    if (isop(op, "edgelen") && n == 2) {
+        double r = 0, k = 0, m = 0; H3Index h = pH(a[1]);
+        H3Error e = H3_EXPORT(edgeLengthRads)(h, &r);
+        if (e) { outErr(e); return 1; }
+        H3Error e2 = H3_EXPORT(edgeLengthKm)(h, &k), e3 = H3_EXPORT(edgeLengthM)(h, &m);
+        if (e2 || e3) { printf("err %d\n", (int)(e2 ? e2 : e3)); return 1; }
+        printf("ok "); outD(r); printf(" "); outD(k); printf(" "); outD(m); printf("\n");
+        return 1;
+    }
+    if (isop(op, "v2ll") && n == 2) {
+        LatLng g; H3Error e = H3_EXPORT(vertexToLatLng)(pH(a[1]), &g);
+        if (e) outErr(e); else { printf("ok "); outLL(&g); printf("\n"); }
+        return 1;
+    }
+    if (isop(op, "facecenters") && n == 1) {
+        printf("ok %d", NUM_ICOSA_FACES);
+        for (int f = 0; f < NUM_ICOSA_FACES; f++) { printf(" "); outLL(&faceCenterGeo[f]); }
+        printf("\n");
+        return 1;
+    }
+    if (isop(op, "pentagons") && n == 2) {
+        H3Index *out = xbuf(12, sizeof(H3Index));
+        H3Error e = H3_EXPORT(getPentagons)((int)pI(a[1]), out);
+        if (e) outErr(e); else { printf("ok "); outHs(out, 12); printf("\n"); }
+        free(out);
+        return 1;
+    }
+    if (isop(op, "res0") && n == 1) {
+        H3Index *out = xbuf(122, sizeof(H3Index));
+        H3Error e = H3_EXPORT(getRes0Cells)(out);
+        if (e) outErr(e); else { printf("ok "); outHs(out, 122); printf("\n"); }
+        free(out);
+        return 1;
+    }
+    if (isop(op, "counts") && n == 1) { printf("ok %d %d\n", H3_EXPORT(res0CellCount)(), H3_EXPORT(pentagonCount)()); return 1; }
+    if (isop(op, "countall") && n == 2) {
+        // iterate all cells of a resolution with the library's own iterator: count, #pentagons,
+        // strictly increasing?, all valid?, xor of indexes
+        int res = (int)pI(a[1]); int64_t cnt = 0, pent = 0; int sorted = 1, valid = 1; H3Index prev = 0, x = 0;
+        for (IterCellsResolution it = iterInitRes(res); it.h; iterStepRes(&it)) {
+            cnt++; if (H3_EXPORT(isPentagon)(it.h)) pent++;
+            if (it.h <= prev) sorted = 0;
+            if (!H3_EXPORT(isValidCell)(it.h) || H3_GET_RESOLUTION(it.h) != res) valid = 0;
+            prev = it.h; x ^= it.h;
+        }
+        printf("ok %" PRId64 " %" PRId64 " %d %d %" PRIx64 "\n", cnt, pent, sorted, valid, x);
+        return 1;
+    }
+    if (isop(op, "hex2d") && n == 3) {
+        Vec2d v = {pD(a[1]), pD(a[2])}; CoordIJK c;
+        _hex2dToCoordIJK(&v, &c);
+        printf("ok %d %d %d\n", c.i, c.j, c.k);
+        return 1;
+    }
+    if (isop(op, "geo2fijk") && n == 4) {
+        LatLng g = {pD(a[1]), pD(a[2])}; FaceIJK f;
+        _geoToFaceIjk(&g, (int)pI(a[3]), &f);
+        printf("ok %d %d %d %d\n", f.face, f.coord.i, f.coord.j, f.coord.k);
+        return 1;
+    }
+    if (isop(op, "polyflags") && n == 2) { H3Error e = validatePolygonFlags((uint32_t)pI(a[1])); if (e) outErr(e); else printf("ok\n"); return 1; }
+    if ((isop(op, "polyfill") || isop(op, "polyfillx") || isop(op, "maxpolyfill") || isop(op, "maxpolyfillx")) && n >= 4) {
+        // polyfill res flags <polygon> ; polyfillx res flags capdelta <polygon>
+        int res = (int)pI(a[1]); uint32_t flags = (uint32_t)pI(a[2]);
+        int at = 3; long long capdelta = 0;
+        if (isop(op, "polyfillx")) { capdelta = pI(a[3]); at = 4; }
+        GeoPolygon p;
+        if (parsePolygon(n, a, at, &p) < 0) return 0;
+        int legacy = isop(op, "polyfill") || isop(op, "maxpolyfill");
+        int64_t sz = 0;
+        H3Error e = legacy ? H3_EXPORT(maxPolygonToCellsSize)(&p, res, flags, &sz)
+                           : H3_EXPORT(maxPolygonToCellsSizeExperimental)(&p, res, flags, &sz);
+        if (e) { outErr(e); freePolygon(&p); return 1; }
+        if (isop(op, "maxpolyfill") || isop(op, "maxpolyfillx")) { printf("ok %" PRId64 "\n", sz); freePolygon(&p); return 1; }
+        if (sz > 20000000) { printf("skip-too-large %" PRId64 "\n", sz); freePolygon(&p); return 1; }
+        int64_t cap = sz;
+        if (!legacy && capdelta != 0) cap = capdelta < 0 ? 0 : capdelta;   // explicit capacity
+        H3Index *out = xbuf((size_t)cap, sizeof(H3Index));
+        e = legacy ? H3_EXPORT(polygonToCells)(&p, res, flags, out)
+                   : H3_EXPORT(polygonToCellsExperimental)(&p, res, flags, cap, out);
+        if (e) outErr(e); else { printf("ok %" PRId64 " ", sz); outHsSorted(out, cap); printf("\n"); }
+        free(out); freePolygon(&p);
+        return 1;
+    }
+    if (isop(op, "multipoly") && n >= 2) {
+        int64_t cnt = pI(a[1]);
+        if (2 + cnt != n) return 0;
+        H3Index *cells = xbuf((size_t)cnt, sizeof(H3Index));
+        for (int64_t i = 0; i < cnt; i++) cells[i] = pH(a[2 + i]);
+        LinkedGeoPolygon poly;
+        verif_alloc_reset();
+        H3Error e = H3_EXPORT(cellsToLinkedMultiPolygon)(cells, (int)cnt, &poly);
+        if (e) { printf("err %d live=%ld\n", (int)e, verif_alloc_live); free(cells); return 1; }
+        // ok <npolys> then per polygon: <nloops> then per loop: <nverts> lat lng ...
+        int np = 0; for (LinkedGeoPolygon *q = &poly; q; q = q->next) np++;
+        if (poly.first == NULL && poly.next == NULL) np = 0;
+        printf("ok %d", np);
+        if (np) for (LinkedGeoPolygon *q = &poly; q; q = q->next) {
+            int nl = 0; for (LinkedGeoLoop *l = q->first; l; l = l->next) nl++;
+            printf(" %d", nl);
+            for (LinkedGeoLoop *l = q->first; l; l = l->next) {
+                int nv = 0; for (LinkedLatLng *v = l->first; v; v = v->next) nv++;
+                printf(" %d", nv);
+                for (LinkedLatLng *v = l->first; v; v = v->next) { printf(" "); outLL(&v->vertex); }
+            }
+        }
+        H3_EXPORT(destroyLinkedMultiPolygon)(&poly);
+        printf(" live=%ld badfree=%ld\n", verif_alloc_live, verif_alloc_bad_free);
+        free(cells);
+        return 1;
+    }
+    if (isop(op, "avgs") && n == 2) {
+        int r = (int)pI(a[1]); double v[4] = {0}; H3Error e[4];
+        e[0] = H3_EXPORT(getHexagonAreaAvgKm2)(r, &v[0]); e[1] = H3_EXPORT(getHexagonAreaAvgM2)(r, &v[1]);
+        e[2] = H3_EXPORT(getHexagonEdgeLengthAvgKm)(r, &v[2]); e[3] = H3_EXPORT(getHexagonEdgeLengthAvgM)(r, &v[3]);
+        printf("ok");
+        for (int i = 0; i < 4; i++) { if (e[i]) printf(" e%d", (int)e[i]); else { printf(" "); outD(v[i]); } }
+        printf("\n");
+        return 1;
+    }
+    if (isop(op, "describe") && n == 2) { printf("ok %s\n", H3_EXPORT(describeH3Error)((H3Error)pI(a[1]))); return 1; }
+    return 0;
+}
